@@ -8,6 +8,7 @@
   in source order).  Rendering of a Text element (tree clone of its window) and of tables /
   figures is covered by the black-box oracle and the render model (see DESIGN.md).
 -/
+import Distill.Props.RenderProps
 import Distill.Proofs.Convert
 import Distill.Props.FiltersProps
 namespace Distill.C02
